@@ -419,18 +419,17 @@ fn consume_num(src: &Vec<char>, start: usize, line: u32, src_file_path: &str) ->
     assert!(src[start].clone().is_numeric() || src[start] == '-');
 
     let mut consumed = 0;
-    let mut val = 0.0;
-    let mut fractional_val = 0.0;
+    // number is collected as ascii decimal text and converted once, so that literal denotes
+    // the f64 nearest to the decimal number it spells
+    let mut en_num_string = String::new();
 
     let mut i = start;
-    let is_negative = if src[start] == '-' {
+    if src[start] == '-' {
         // skipping negative sign
+        en_num_string.push('-');
         consumed += 1;
         i += 1;
-        true
-    } else {
-        false
-    };
+    }
     let mut in_fractional_part = false;
 
     while i < src.len() && (src[i].clone().is_numeric() || src[i] == '.') {
@@ -440,27 +439,22 @@ fn consume_num(src: &Vec<char>, start: usize, line: u32, src_file_path: &str) ->
                                        "Number is not properly formatted".to_string()));
             }
             in_fractional_part = true;
+            en_num_string.push('.');
             consumed += 1;
             i += 1;
             continue;
         }
 
-        if in_fractional_part {
-            fractional_val = (fractional_val * 10.0) + bn_digit_to_en_digit(src[i], line, src_file_path)?;
-            consumed += 1;
-            i += 1;
-        } else {
-            val = (val * 10.0) + bn_digit_to_en_digit(src[i], line, src_file_path)?;
-            consumed += 1;
-            i += 1;
-        }
+        let digit = bn_digit_to_en_digit(src[i], line, src_file_path)?;
+        en_num_string.push(std::char::from_digit(digit as u32, 10).unwrap());
+        consumed += 1;
+        i += 1;
     }
-    fractional_val = fractional_val / (10_f64.powf(fractional_val.to_string().len() as f64));
 
-    if is_negative {
-        Ok(((val + fractional_val) * -1.0, consumed))
-    } else {
-        Ok(((val + fractional_val), consumed))
+    match en_num_string.parse::<f64>() {
+        Ok(val) => Ok((val, consumed)),
+        Err(_) => Err(SyntaxError(line, src_file_path.to_string(),
+                                  "Number is not properly formatted".to_string())),
     }
 }
 
